@@ -15,11 +15,21 @@ agree.  Own oracle: sanitizer abort, non-standard exception, `ok` with is_valid(
 input counts.
 """
 import json
+import math
 import os
 import re
+import resource
+import signal
+import subprocess
+import sys
+import threading
+import time
 
 from vlib import common as C
 from checks import c09 as L
+
+sys.path.insert(0, os.path.join(C.ROOT, "tools"))
+import translate_reader  # noqa: E402
 
 
 def mutate_csv(rng, T, data):
@@ -103,6 +113,138 @@ def mutate_csv(rng, T, data):
     return b"\n".join(lines), what
 
 
+def mutate_csv2(rng, T, data):
+    """Grammar-aware damage: the places where the parser's state machine can go wrong (quotes, escapes,
+    end of input inside quotes, line ends, NUL, byte order mark, very long fields, runs of blank lines)."""
+    d = T["delim"]
+    k = rng.below(16)
+    lines = data.split(b"\n")
+    i = rng.below(len(lines)) if lines else 0
+    parts = lines[i].split(d) if lines else [b""]
+    j = rng.below(len(parts))
+    if k == 0:                                # a quoted field with doubled quotes / delimiters / quotes at its edges
+        parts[j] = rng.choice([b'"a""b"', b'""""', b'"' + d + b'"', b'"a' + d + b'b"', b'""', b'" "', b' "x"', b'"x" ',
+                               b'x"y', b'"x"y', b'"x""', b'""x', b'"\r"', b'"' + b'""' * rng.between(1, 40) + b'"'])
+        what = "quote-grammar"
+    elif k == 1:                              # the input ends inside quotes
+        data2 = b"\n".join(lines[:i + 1])
+        q = data2.rfind(d) + 1 if d in data2 else 0
+        return data2[:q] + b'"' + data2[q:q + rng.below(6)], "eof-in-quotes"
+    elif k == 2:                              # CR / CRLF / LF mixes, lone CR inside a line
+        eols = [b"\n", b"\r\n", b"\r", b"\n\r", b"\r\r\n"]
+        return b"".join(l + rng.choice(eols) for l in lines), "eol-mix"
+    elif k == 3:                              # byte order mark(s)
+        return rng.choice([b"\xef\xbb\xbf", b"\xff\xfe", b"\xfe\xff", b"\xef\xbb\xbf\xef\xbb\xbf"]) + data, "bom"
+    elif k == 4:                              # NUL inside a field / at the start of a line / before the delimiter
+        parts[j] = rng.choice([b"\x00", b"a\x00b", parts[j] + b"\x00", b"\x00" + parts[j], b'"\x00"'])
+        what = "nul"
+    elif k == 5:                              # bytes >= 0x80 (isspace / isupper / isalpha get a negative char)
+        parts[j] = bytes(rng.choice([0x80, 0x85, 0xa0, 0xc3, 0xe9, 0xff, 0xfe]) for _ in range(rng.between(1, 6)))
+        what = "high-bytes"
+    elif k == 6:                              # a very long field / a very long line
+        # (the model appends to a list: quadratic – fields of 10^4 .. 10^6 bytes are read by the scaling stream)
+        parts[j] = rng.choice([b"a", b"7", b" ", b'"q"', b"ab ", b"\xc3\xa9"]) * rng.between(100, 500)
+        what = "long-field"
+    elif k == 7:                              # runs of blank lines between the rows
+        blank = rng.choice([b"", b" ", b"\t", b"\r", b" \t \x0b\x0c"])
+        lines[i:i] = [blank] * rng.between(5, 60)
+        what = "blank-run"
+    elif k == 8:                              # trailing / leading / doubled delimiter, a line of delimiters only
+        lines[i] = rng.choice([lines[i] + d, d + lines[i], lines[i].replace(d, d + d, 1), d * rng.between(1, 8)])
+        return b"\n".join(lines), "delimiter-grammar"
+    elif k == 9:                              # header only / header twice / a data row first
+        if rng.chance(0.5):
+            return lines[0] + b"\n", "header-only"
+        return lines[0] + b"\n" + data, "header-twice"
+    elif k == 10:                             # a very wide record
+        lines[i] = d.join(rng.choice([b"1", b"x", b""]) for _ in range(rng.between(100, 400)))
+        return b"\n".join(lines), "very-wide"
+    elif k == 11:                             # white space around fields and quotes
+        parts[j] = rng.choice([b"  " + parts[j], parts[j] + b"\t", b" " + parts[j] + b" ", b'  "' + parts[j] + b'"  ',
+                               b"\x0b" + parts[j], b"\x0c"])
+        what = "blanks"
+    elif k == 12:                             # numbers that strtod / stod / stoi treat differently
+        parts[j] = rng.choice([b"0x10", b"1e309", b"4.9e-324", b"2147483648", b"-2147483649", b"1_000", b"1,5", b"\xef\xbc\x91",
+                               b"+", b"-", b".", b"e5", b"1e+", b"0x", b"infinity", b"nan(1)", b" 1", b"1 ", b"1\t", b"00",
+                               b"1" * 400, b"0." + b"0" * 400 + b"1"])
+        what = "number-grammar"
+    elif k == 13:                             # the whole file once more / reversed line order
+        return (data + data if rng.chance(0.5) else b"\n".join(reversed(lines))), "reorder"
+    elif k == 14:                             # no line end at all / only line ends
+        return rng.choice([data.replace(b"\n", b""), data.replace(b"\n", b"\r"), b"\n" * rng.between(1, 40) + data]), "eol-grammar"
+    else:                                     # a label column that mixes text and numbers
+        if T["out"] is not None and T["out"] < len(parts):
+            parts[T["out"]] = rng.choice([b"3", b"1.5", b"", b"abc", b"-0", b"1e2"])
+        what = "label-kind"
+    if lines:
+        lines[i] = d.join(parts)
+    return b"\n".join(lines), what
+
+
+def mutate_xml2(rng, xml):
+    """Grammar-aware damage of an XRFF text: entities, CDATA, comments, BOM, nesting, attribute syntax."""
+    k = rng.below(14)
+    vals = [m for m in re.finditer(rb"<value>([^<]*)</value>", xml)]
+    m = vals[rng.below(len(vals))] if vals else None
+
+    def put(txt):
+        return xml[:m.start()] + b"<value>" + txt + b"</value>" + xml[m.end():] if m else xml
+    if k == 0:
+        return put(rng.choice([b"&amp;", b"&lt;&gt;", b"&#65;", b"&#x41;", b"&bogus;", b"&#0;", b"&#xFFFFFFFF;", b"&", b"&#;",
+                               b"&amp", b"&quot;&apos;", b"1&#32;", b"&#x31;", b"&amp;" * rng.between(2, 300)])), "entity"
+    if k == 1:
+        return put(rng.choice([b"<![CDATA[7]]>", b"<![CDATA[<&>]]>", b"<![CDATA[]]>", b"<![CDATA[ ]] ]]>", b"<![CDATA[x",
+                               b"a<![CDATA[b]]>c", b"<![CDATA[" + b"ab" * rng.between(10, 2000) + b"]]>"])), "cdata"
+    if k == 2:
+        return put(rng.choice([b"<!-- c -->5", b"5<!---->", b"<!-- -- -->", b"<!--", b"<?pi x?>5", b"<!DOCTYPE x>"])), "comment"
+    if k == 3:
+        return rng.choice([b"\xef\xbb\xbf", b"\xff\xfe", b"\xef\xbb\xbf\n\n", b"\x00"]) + xml, "bom"
+    if k == 4:                               # nesting inside a value / around the instances
+        dpt = rng.choice([1, 2, 5, 40, 98, 99, 100, 101, 150, 400])
+        if rng.chance(0.5):
+            return put(b"<v>" * dpt + b"7" + b"</v>" * dpt), "nesting"
+        return xml.replace(b"<instances>", b"<g>" * dpt + b"<instances>", 1).replace(b"</instances>", b"</instances>" + b"</g>" * dpt, 1), \
+            "nesting"
+    if k == 5:                               # attribute syntax
+        a = rng.choice([(b'name="', b"name='"), (b'type="numeric"', b"type=numeric"), (b'type="', b'type = "'),
+                        (b'class="yes"', b'class="YES"'), (b'class="yes"', b'class="yes" class="yes"'), (b' name="', b' name="&quot;'),
+                        (b'type="nominal"', b'type="nominal" type="string"'), (b"/>", b" / >"), (b'name="', b'Name="')])
+        return xml.replace(a[0], a[1], rng.between(1, 3)), "attribute-syntax"
+    if k == 6:                               # closing tags dropped / crossed
+        t = rng.choice([b"</value>", b"</instance>", b"</attributes>", b"</header>", b"</body>", b"</dataset>", b"</label>"])
+        return xml.replace(t, rng.choice([b"", b"</x>", t + t]), rng.between(1, 2)), "tags"
+    if k == 7:                               # self-closing and white-space-only values
+        return put(rng.choice([b"", b" ", b"\n\t", b"\r\n"])) if rng.chance(0.6) else \
+            (xml[:m.start()] + b"<value/>" + xml[m.end():] if m else xml), "empty-value"
+    if k == 8:                               # a very long value / name / very many values
+        if rng.chance(0.5):
+            return put(rng.choice([b"9", b"ab", b" "]) * rng.between(200, 1500)), "long-value"
+        return xml.replace(b"</instance>", b"<value>1</value>" * rng.between(50, 400) + b"</instance>", 1), "many-values"
+    if k == 9:                               # sections twice / in another order
+        hdr = re.search(rb"<header>.*?</header>", xml, re.S)
+        body = re.search(rb"<body>.*?</body>", xml, re.S)
+        if hdr and body:
+            if rng.chance(0.5):
+                return xml.replace(hdr.group(0), hdr.group(0) + hdr.group(0), 1), "header-twice"
+            return xml.replace(hdr.group(0), b"@@", 1).replace(body.group(0), hdr.group(0), 1).replace(b"@@", body.group(0), 1), \
+                "body-first"
+        return xml, "well-formed"
+    if k == 10:                              # labels: many, empty, nested, on a non-nominal attribute
+        return xml.replace(b"/>", b"><label>a</label><label/><label> </label><label><b>x</b></label></attribute>", 1), "labels"
+    if k == 11:                              # NUL / high bytes / CR inside the text
+        xs = bytearray(xml)
+        for _ in range(rng.between(1, 4)):
+            xs[rng.below(len(xs))] = rng.choice([0, 0x80, 0xff, 13, 9, 0xc3])
+        return bytes(xs), "bytes"
+    if k == 12:                              # very many attributes / instances
+        at = re.search(rb"<attribute [^>]*/>", xml)
+        if at and rng.chance(0.5):
+            return xml.replace(at.group(0), at.group(0) * rng.between(20, 200), 1), "many-attributes"
+        ins = re.search(rb"<instance>.*?</instance>", xml, re.S)
+        return (xml.replace(ins.group(0), ins.group(0) * rng.between(20, 200), 1) if ins else xml), "many-instances"
+    return re.sub(rb">\s*<", lambda _m: rng.choice([b"><", b">\n<", b">\r\n  <", b"> <"]), xml), "whitespace"
+
+
 def mutate_xml(rng, xml):
     k = rng.below(10)
     if k == 0:
@@ -147,20 +289,490 @@ def mutate_xml(rng, xml):
     return xml, "well-formed"
 
 
+# ---------------------------------------------------------------------------
+# resource-scaling inputs (harness/c10_scale.cc): reduced stack, CPU watchdog
+# ---------------------------------------------------------------------------
+
+STACK_KB = 256          # stack of the reading thread (the default is 8 MiB: recursion per item shows 32x earlier)
+CPU_S = 20              # CPU-time watchdog of one reading (the slowest reading of the unchanged tree takes < 1 s)
+# bytes: high-water(4n) - high-water(n).  A frame per item is >= 32 bytes x 3n items (>= 144 kB at n = 1500); the
+# sort inside symbol_set::insert adds ~5 kB per factor 4 (depth O(log n)), everything else is flat.
+STACK_GROWTH_TOL = 16384
+
+
+def chunk(b, n=1):
+    return "%s*%d" % (b.hex(), n) if n != 1 else b.hex()
+
+
+def recipe(*parts):
+    """parts: bytes or (bytes, count)"""
+    items = []
+    for p in parts:
+        if isinstance(p, tuple):
+            if p[1] > 0 and p[0]:
+                items.append(chunk(p[0], p[1]))
+        elif p:
+            items.append(chunk(p))
+    return "+".join(items) or "-"
+
+
+def expand_recipe(r):
+    if r == "-":
+        return b""
+    out = []
+    for it in r.split("+"):
+        h, _, n = it.partition("*")
+        out.append(bytes.fromhex(h) * (int(n) if n else 1))
+    return b"".join(out)
+
+
+XHEAD = b'<?xml version="1.0"?>\n<dataset name="s">\n<header>\n<attributes>\n'
+XMID = b"</attributes>\n</header>\n<body>\n<instances>\n"
+XTAIL = b"</instances>\n</body>\n</dataset>\n"
+XATTR2 = b'<attribute name="a" type="numeric"/>\n<attribute class="yes" name="y" type="numeric"/>\n'
+XINST = b"<instance><value>1</value><value>2</value></instance>\n"
+
+
+def scale_families(rng, n):
+    """Every family at size `n`: (name, request without the recipe, recipe parts, expectation, flags).
+    expectation: None or a dict of `key=value` tokens the `ok` answer must carry / {"class": "exc"};
+    flags: "bounded-depth" = the stack may grow with n up to a fixed bound (XML nesting: tinyxml2 stops
+    at depth 100), so the growth of the high-water mark is not judged."""
+    csv = "scale csv %d %d" % (STACK_KB, CPU_S)
+    row, row2 = b"1,2\n", b"3,4\n"
+    blank = rng.choice([b"\n", b"\r\n", b" \n", b"\t \r\n", b" \t\x0b\x0c\n"])
+    fam = []
+
+    def ok(examples, cols=None, **kw):
+        d = {"examples": examples}
+        if cols is not None:
+            d["cols"] = cols
+        d.update(kw)
+        return d
+
+    # runs of skipped lines: empty, white space only, at the start / in the middle / at the end
+    fam.append(("csv:empty-lines-middle", csv + " 44 0 0 0 0 0", [(row, 3), (b"\n", n), (row2, 2)], ok(5, 2), ""))
+    fam.append(("csv:blank-lines-middle", csv + " 44 0 0 0 0 0", [(row, 3), (blank, n), (row2, 2)], ok(5, 2), ""))
+    fam.append(("csv:blank-lines-start", csv + " 44 0 0 0 0 0", [(blank, n), (row, 3)], ok(3, 2), ""))
+    fam.append(("csv:blank-lines-end", csv + " 44 0 0 0 0 0", [(row, 3), (blank, n)], ok(3, 2), ""))
+    fam.append(("csv:blank-lines-only", csv + " 44 0 0 0 0 0", [(blank, n)], {"class": "exc"}, ""))
+    fam.append(("csv:blank-lines-start-sniffed", csv + " 0 -1 0 0 0 0", [(blank, n), (b"a,b\n", 1), (row, 4)], ok(4, 2), ""))
+    fam.append(("csv:blank-lines-interleaved", csv + " 44 0 0 0 0 0", [(row + blank * 3, n // 4)], ok(n // 4, 2), ""))
+    # runs of records the filter rejects / read_record skips / the output index does not reach
+    fam.append(("csv:filter-rejected-run", csv + " 44 0 0 0 0 p78", [(row, 3), (b"x,1\n", n), (row2, 2)], ok(5, 2), ""))
+    fam.append(("csv:filter-rejects-all", csv + " 44 0 0 0 0 p78", [(b"x,1\n", n)], {"class": "exc"}, ""))
+    fam.append(("csv:filter-rejected-and-blank", csv + " 44 0 0 0 0 p78", [(row, 2), (b"x,1\n\n \n", n // 2), (row2, 2)],
+                ok(4, 2), ""))
+    fam.append(("csv:ragged-run", csv + " 44 0 0 0 0 0", [(row, 3), (b"1,2,3\n", n // 2), (b"7\n", n // 2), (row2, 2)],
+                ok(5, 2), ""))
+    fam.append(("csv:short-of-output-index", csv + " 44 0 0 0 1 0", [(row, 3), (b"7\n", n), (row2, 2)], ok(5, 2), ""))
+    # many records, many columns, long fields and lines
+    fam.append(("csv:many-rows", csv + " 44 0 0 0 0 0", [(row, n)], ok(n, 2), ""))
+    fam.append(("csv:many-classes", csv + " 44 0 0 0 0 0", [(b"a,1\nb,2\n", n // 2)], ok(2 * (n // 2), 2, classes=2), ""))
+    m = max(n // 4, 8)
+    fam.append(("csv:many-columns", csv + " 44 0 0 0 0 0", [(b"1,", m), b"1\n", (b"2,", m), b"2\n"], ok(2, m + 1), ""))
+    fam.append(("csv:many-columns-sniffed", csv + " 0 -1 0 0 0 0", [(b"h,", m), b"h\n", (b"1,", m), b"1\n", (b"2,", m), b"2\n"],
+                None, ""))
+    fam.append(("csv:many-empty-columns", csv + " 44 0 0 0 0 0", [b"1", (b",", m), b"\n", b"2", (b",", m), b"\n"],
+                ok(2, m + 1), ""))
+    fam.append(("csv:long-quoted-field", csv + " 44 0 0 0 0 0", [b'1,"', (b"ab", 20 * n), b'"\n2,"c"\n'], ok(2, 2), ""))
+    # outside quotes `parse_line` trims a copy of the field for every character: quadratic (96 kB of blanks: 16 s under
+    # ASan) – these three families stay below the sizes at which that cost comes near the watchdog
+    fam.append(("csv:long-unquoted-field", csv + " 44 0 0 0 0 0", [b"1,", (b"ab", min(n, 24000)), b"\n2,c\n"], ok(2, 2), ""))
+    fam.append(("csv:doubled-quotes-run", csv + " 44 0 0 0 0 0", [b'1,"', (b'""', 2 * n), b'"\n2,"c"\n'], ok(2, 2), ""))
+    fam.append(("csv:unbalanced-quote-long", csv + " 44 0 0 0 0 0", [b'1,"', (b"a,", 2 * n), b"\n2,c\n"], ok(2, 2), ""))
+    fam.append(("csv:quote-chars-run", csv + " 44 0 0 0 0 0", [b"1,", (b'"', 2 * n + 1), b"\n2,c\n"], None, ""))
+    fam.append(("csv:long-blank-field-trim", csv + " 44 0 1 0 0 0", [b"1,", (b" ", 2 * min(n, 8000)), b"x\n2,c\n"], ok(2, 2), ""))
+    fam.append(("csv:nul-run", csv + " 44 0 0 0 0 0", [(row, 2), (b"\x00", n), b"\n", (row2, 2)], None, ""))
+    fam.append(("csv:cr-run", csv + " 44 0 0 0 0 0", [(row, 2), (b"\r", n), b"\n", (row2, 2)], ok(4, 2), ""))
+    fam.append(("csv:high-bytes-run", csv + " 44 0 0 0 0 0", [b"1,", (b"\xff\xc3\x80", min(n, 12000)), b"\n2,c\n"], ok(2, 2), ""))
+    fam.append(("csv:no-newline-at-all", csv + " 0 -1 0 0 0 0", [(b"ab;", 2 * n)], None, ""))
+    # the parser alone and the sniffer
+    fam.append(("parse:blank-run", "scale parse %d %d 44 0 0 0" % (STACK_KB, CPU_S), [(row, 1), (blank, n), (row2, 1)],
+                {"records": 2}, ""))
+    fam.append(("parse:filtered-run", "scale parse %d %d 44 0 1 e3" % (STACK_KB, CPU_S), [(row, 1), (b"1,2,3\n", n), (row2, 1)],
+                {"records": 2}, ""))
+    fam.append(("sniff:many-lines", "scale sniff %d %d" % (STACK_KB, CPU_S), [(b"a;b;c\n", 1), (b"1;2;3\n", n)],
+                {"delim": 59}, ""))
+    fam.append(("sniff:blank-run", "scale sniff %d %d" % (STACK_KB, CPU_S), [(blank, n), (b"a;b;c\n", 1), (b"1;2;3\n", 30)],
+                {"delim": 59}, ""))
+    fam.append(("sniff:irregular-run", "scale sniff %d %d" % (STACK_KB, CPU_S), [(b"a;b;c\n", 1), (b"1;2\n", n), (b"1;2;3\n", 5)],
+                None, ""))
+    # src_problem(std::istream &) and dataframe::read(path)
+    fam.append(("prob:many-rows", "scale prob %d %d %d" % (STACK_KB, CPU_S, rng.below(2)), [b"y,a\n", (b"1,2\n", n)],
+                ok(n, 2, variables=1), ""))
+    fam.append(("prob:blank-run", "scale prob %d %d 0" % (STACK_KB, CPU_S), [b"y,a\n", (row, 2), (blank, n), (row2, 2)],
+                ok(4, 2, variables=1), ""))
+    mp = min(m, 3000)     # symbol_set::insert is quadratic in the number of symbols (6400 columns: 4 s, 25600: > 60 s)
+    fam.append(("prob:many-columns", "scale prob %d %d %d" % (STACK_KB, CPU_S, rng.below(2)),
+                [(b"1,", mp), b"1\n", (b"2,", mp), b"2\n"], ok(2, mp + 1, variables=mp), ""))
+    fam.append(("file:csv-blank-run", "scale file %d %d %s" % (STACK_KB, CPU_S, rng.choice([b".csv", b".txt", b""]).hex() or "-"),
+                [b"y,a\n", (row, 2), (blank, n), (row2, 2)], ok(4, 2), ""))
+    fam.append(("file:xrff-many-instances", "scale file %d %d %s" % (STACK_KB, CPU_S, rng.choice([b".xrff", b".XML"]).hex()),
+                [XHEAD, XATTR2, XMID, (XINST, n), XTAIL], ok(n, 2), ""))
+    # XRFF
+    xr = "scale xrff %d %d" % (STACK_KB, CPU_S)
+    fam.append(("xrff:many-instances", xr + " 0", [XHEAD, XATTR2, XMID, (XINST, n), XTAIL], ok(n, 2), ""))
+    fam.append(("xrff:many-empty-instances", xr + " 0", [XHEAD, XATTR2, XMID, (XINST, 2), (b"<instance></instance>\n<instance/>", n),
+                                                         XTAIL], ok(2, 2), ""))
+    fam.append(("xrff:short-instances", xr + " 0", [XHEAD, XATTR2, XMID, (XINST, 2), (b"<instance><value>1</value></instance>\n", n),
+                                                    XTAIL], ok(2, 2), ""))
+    fam.append(("xrff:filter-rejected-run", xr + " p39", [XHEAD, XATTR2, XMID, (XINST, 2),
+                                                         (b"<instance><value>9</value><value>2</value></instance>\n", n), XTAIL],
+                ok(2, 2), ""))
+    fam.append(("xrff:many-attributes", xr + " 0", [XHEAD, (b'<attribute name="a" type="numeric"/>\n', m), XMID,
+                                                    b"<instance>", (b"<value>1</value>", m), b"</instance>\n",
+                                                    b"<instance>", (b"<value>2</value>", m), b"</instance>\n", XTAIL],
+                ok(2, m), ""))
+    fam.append(("xrff:many-values-in-instance", xr + " 0", [XHEAD, XATTR2, XMID, (XINST, 2), b"<instance>", (b"<value>1</value>", n),
+                                                            b"</instance>\n", XTAIL], ok(2, 2), ""))
+    fam.append(("xrff:many-labels", xr + " 0", [XHEAD, b'<attribute name="c" type="nominal">', (b"<label>l</label>", n),
+                                                b"</attribute>\n", b'<attribute class="yes" name="y" type="numeric"/>\n', XMID,
+                                                b"<instance><value>l</value><value>2</value></instance>\n" * 2, XTAIL], ok(2, 2), ""))
+    fam.append(("xrff:many-class-attributes", xr + " 0", [XHEAD, (b'<attribute class="yes" name="y" type="numeric"/>\n', n), XMID,
+                                                          XTAIL], {"class": "exc"}, ""))
+    fam.append(("xrff:long-value", xr + " 0", [XHEAD, b'<attribute name="a" type="string"/>\n<attribute class="yes" name="y" '
+                                               b'type="numeric"/>\n', XMID, b"<instance><value>", (b"ab", 20 * n),
+                                               b"</value><value>2</value></instance>\n", XINST.replace(b">1<", b">z<"), XTAIL],
+                ok(2, 2), ""))
+    fam.append(("xrff:entities-run", xr + " 0", [XHEAD, b'<attribute name="a" type="string"/>\n<attribute class="yes" name="y" '
+                                                 b'type="numeric"/>\n', XMID, b"<instance><value>",
+                                                 (rng.choice([b"&amp;", b"&lt;", b"&#65;", b"&#x41;", b"&quot;"]), n),
+                                                 b"</value><value>2</value></instance>\n", XINST.replace(b">1<", b">z<"), XTAIL],
+                ok(2, 2), ""))
+    fam.append(("xrff:cdata-long", xr + " 0", [XHEAD, b'<attribute name="a" type="string"/>\n<attribute class="yes" name="y" '
+                                               b'type="numeric"/>\n', XMID, b"<instance><value><![CDATA[", (b"<&>", 4 * n),
+                                               b"]]></value><value>2</value></instance>\n", XINST.replace(b">1<", b">z<"), XTAIL],
+                ok(2, 2), ""))
+    fam.append(("xrff:comment-long", xr + " 0", [XHEAD, XATTR2, b"<!--", (b"- ", 4 * n), b"-->", XMID, (XINST, 2), XTAIL], ok(2, 2), ""))
+    fam.append(("xrff:many-xml-attributes", xr + " 0", [XHEAD, b'<attribute name="a" type="numeric" ', (b'z="1" ', min(n, 4000)), b"/>\n",
+                                                        b'<attribute class="yes" name="y" type="numeric"/>\n', XMID, (XINST, 2), XTAIL],
+                None, ""))
+    fam.append(("xrff:bom-and-blank-run", xr + " 0", [b"\xef\xbb\xbf", XHEAD, XATTR2, (b" \n", n), XMID, (XINST, 2), XTAIL], ok(2, 2), ""))
+    depth = min(n // 64 + 10, 90)      # inside tinyxml2's limit (100 nested elements)
+    fam.append(("xrff:deep-nesting-inside-limit", xr + " 0", [XHEAD, XATTR2, XMID, (XINST, 2), b"<instance><value>1",
+                                                              (b"<v>", depth), (b"</v>", depth), b"</value><value>2</value></instance>\n",
+                                                              XTAIL], None, "bounded-depth"))
+    fam.append(("xrff:deep-nesting-beyond-limit", xr + " 0", [XHEAD, XATTR2, XMID, (b"<v>", n), (b"</v>", n), XTAIL],
+                {"class": "exc"}, "bounded-depth"))
+    fam.append(("xrff:unclosed-run", xr + " 0", [XHEAD, XATTR2, XMID, (b"<instance>", n)], {"class": "exc"}, "bounded-depth"))
+    fam.append(("xrff:siblings-unclosed-values", xr + " 0", [XHEAD, XATTR2, XMID, b"<instance>", (b"<value/>", n)], {"class": "exc"}, ""))
+    return [(nm, req, recipe(*parts), exp, fl) for nm, req, parts, exp, fl in fam]
+
+
+def scale_tokens(a):
+    d = {}
+    for w in a.split():
+        k, eq, v = w.partition("=")
+        if eq:
+            d[k] = v
+    return d
+
+
+def run_scale(chk, exe, rng, quick, only=None):
+    """The resource-scaling stream.  Every family is read at size n and 4n on a 256 kB stack under a CPU
+    watchdog.  Violations (own oracle, concrete input = the request line): the stack is exhausted; the
+    watchdog fires; any other fault; the high-water mark of the stack grows with n; the outcome is not
+    the expected one.  Returns the number of requests."""
+    sizes = [(1500, 6000)] if quick else [(1500, 6000), (12000, 48000)]
+    reqs = []
+    if only is not None:
+        reqs.append(("replay", only, None, "", None))
+    else:
+        for n1, n2 in sizes:
+            for (nm, req, rc1, exp1, fl), (_, _, rc2, exp2, _) in zip(scale_families(C.SplitMix(chk.seed + 77), n1),
+                                                                      scale_families(C.SplitMix(chk.seed + 77), n2)):
+                reqs.append((nm, req + " " + rc1, exp1, fl, len(reqs) + 1))
+                reqs.append((nm, req + " " + rc2, exp2, fl, None))
+    env = {"ASAN_OPTIONS": C.SAN_ENV["ASAN_OPTIONS"] + ":hard_rss_limit_mb=6000"}
+    ans = []
+    at = 0
+    while at < len(reqs):          # in batches: a tree on which everything hangs must not take hours
+        step = 1 if any(a.startswith("timeout") for a in ans) else 8
+        part, _ = C.run_lines(exe, [r[1] for r in reqs[at:at + step]], env=env, timeout=3600)
+        at += step
+        ans += part
+        if sum(1 for a in ans if a.startswith("timeout")) >= 3:
+            chk.notes.append("scaling stream stopped after 3 watchdog timeouts (%d of %d requests run)" % (len(ans), len(reqs)))
+            reqs = reqs[:len(ans)]
+            break
+    growth = {}
+    for i, (nm, ln, exp, fl, pair) in enumerate(reqs):
+        a = ans[i] if i < len(ans) else "skipped"
+        tk = scale_tokens(a)
+        fam = nm.split(":")[0]
+        chk.seen(ln, nontrivial=True)
+        chk.count("scale:" + nm)
+        cls = a.split()[0] if a else "?"
+        chk.count("scale-outcome:" + (" ".join(a.split()[:2]) if cls in ("exc", "fault", "timeout") else cls))
+        rep = {"kind": "scale", "line": ln, "cpp": a[:600], "family": nm, "stack_kB": STACK_KB, "cpu_limit_s": CPU_S,
+               "input_bytes": tk.get("in"), "note": "recipe = `+`-joined <hexbytes>*<count>; the default stack is 8 MiB = "
+               "%d x the stack of this run" % (8192 // STACK_KB)}
+        if a.startswith("fault stack"):
+            if "confirmed" not in growth:       # once per run: the same shape, 32 x larger, on the default 8 MiB stack
+                toks = ln.split()
+                toks[2] = "8192"
+                toks[-1] = "+".join(("%s*%d" % (it.split("*")[0], int(it.split("*")[1]) * (8192 // STACK_KB))
+                                     if "*" in it and int(it.split("*")[1]) >= 500 else it) for it in toks[-1].split("+"))
+                big, _ = C.run_lines(exe, [" ".join(toks)], env=env, timeout=3600)
+                growth["confirmed"] = 0
+                rep["default_stack_8MiB"] = {"line": " ".join(toks), "cpp": (big[0] if big else "")[:300]}
+            chk.violation("reading exhausts a %d kB stack (stack depth grows with the input; neither a dataframe nor an "
+                          "exception): %s -> %s" % (STACK_KB, nm, a[:120]), rep,
+                          tags={"kind": "scale", "site": "stack", "family": nm})
+            continue
+        if a.startswith("timeout"):
+            SUSPECT[0] = True
+            chk.violation("reading does not terminate within the CPU watchdog (%s): %s" % (a, nm), rep,
+                          tags={"kind": "scale", "site": "timeout", "family": nm})
+            continue
+        if cls not in ("ok", "exc"):
+            chk.violation("reading a scaled input ends in %s: %s" % (a[:160], nm), rep,
+                          tags={"kind": "scale", "site": "fault", "family": nm})
+            continue
+        if cls == "ok" and "valid" in tk and (tk.get("valid") != "1" or tk.get("eqin") != "1"):
+            chk.violation("reading returns normally but the dataframe fails its consistency check: " + a[:120], rep,
+                          tags={"kind": "scale", "site": "invalid-result", "family": nm})
+            continue
+        if exp is not None:
+            good = (cls == "exc") if exp.get("class") == "exc" else \
+                (cls == "ok" and all(tk.get(k) == str(v) for k, v in exp.items()))
+            if not good:
+                chk.violation("a scaled input is not read as expected (%s): expected %s, got %s" % (nm, exp, a[:160]),
+                              rep, tags={"kind": "scale", "site": "unexpected", "family": nm})
+                continue
+        if pair is not None and i + 1 < len(reqs):
+            b = ans[i + 1] if i + 1 < len(ans) else ""
+            tb = scale_tokens(b)
+            if "stack" in tk and "stack" in tb:
+                g = int(tb["stack"]) - int(tk["stack"])
+                growth[nm] = max(growth.get(nm, 0), g)
+                if g > STACK_GROWTH_TOL and "bounded-depth" not in fl:
+                    rep2 = dict(rep, line=reqs[i + 1][1], cpp=b[:600], smaller={"line": ln, "cpp": a[:300]})
+                    chk.violation("the stack depth of reading grows with the input (%s: high-water %s bytes at size n, "
+                                  "%s at 4n): a larger input of the same shape exhausts the stack" % (nm, tk["stack"], tb["stack"]),
+                                  rep2, tags={"kind": "scale", "site": "stack-growth", "family": nm})
+            # CPU growth exponent (evidence only: quadratic work terminates)
+            try:
+                t1, t2 = int(tk["cpu_ms"]), int(tb["cpu_ms"])
+                s1, s2 = int(tk["in"]), int(tb["in"])
+                if t1 >= 20 and s2 > s1:
+                    chk.cov.setdefault("scale_cpu_exponent", {})[nm] = round(math.log(max(t2, 1) / t1) / math.log(s2 / s1), 2)
+            except (KeyError, ValueError):
+                pass
+    growth.pop("confirmed", None)
+    chk.cov["scale_stack_growth_bytes"] = {k: v for k, v in sorted(growth.items()) if v > 256}
+    chk.cov["scale_stack_kB"] = STACK_KB
+    return len(reqs)
+
+
+# ---------------------------------------------------------------------------
+# running the differential harness under a watchdog: a reading that does not return is a result
+# ---------------------------------------------------------------------------
+
+STALL_S = 150       # wall seconds without a single answer before the current request is suspected
+STALL_AGAIN_S = 25  # the same once a non-terminating request has been confirmed
+MAX_TIMEOUTS = 3    # confirmed non-terminating requests after which the rest of the stream is skipped
+CONFIRM_CPU_S = 20   # CPU seconds the suspected request gets on its own (a normal one takes milliseconds)
+
+
+def _limit_cpu():
+    resource.setrlimit(resource.RLIMIT_CPU, (CONFIRM_CPU_S, CONFIRM_CPU_S + 2))
+
+
+SUSPECT = [False]     # a reading has already been seen not to terminate: do not wait long for the next ones
+
+
+def run_lines_wd(exe, lines, env=None, max_restarts=25):
+    """`C.run_lines` with a watchdog.  When the harness stops answering for STALL_S seconds the request it is
+    working on is run again on its own under RLIMIT_CPU: killed by SIGXCPU -> answer `timeout cpu=<s>`
+    (non-termination, load independent); otherwise its answer is taken (the machine was just busy).
+    Returns (answers, deaths) like C.run_lines."""
+    e = dict(os.environ)
+    e.update(C.SAN_ENV)
+    if env:
+        e.update(env)
+    answers, deaths, start = [], [], 0
+    errf = os.path.join(C.BUILD, "c10_wd_stderr.%d.txt" % os.getpid())
+    while start < len(lines):
+        with open(errf, "wb") as ef:
+            p = subprocess.Popen([exe], stdin=subprocess.PIPE, stdout=subprocess.PIPE, stderr=ef, env=e)
+            got = []
+
+            def feed():
+                try:
+                    p.stdin.write(("\n".join(lines[start:]) + "\n").encode())
+                    p.stdin.close()
+                except (BrokenPipeError, OSError):
+                    pass
+
+            def read():
+                for ln in p.stdout:
+                    got.append(ln.decode("utf-8", "replace").rstrip("\n"))
+            tf, tr = threading.Thread(target=feed, daemon=True), threading.Thread(target=read, daemon=True)
+            tf.start()
+            tr.start()
+            last, last_t, hung = 0, time.time(), False
+            while True:
+                tr.join(0.5)
+                if not tr.is_alive():
+                    break
+                if len(got) != last:
+                    last, last_t = len(got), time.time()
+                elif time.time() - last_t > (STALL_AGAIN_S if SUSPECT[0] else STALL_S):
+                    hung = True
+                    p.kill()
+                    tr.join(10)
+                    break
+            rc = p.wait()
+        want = len(lines) - start
+        got = got[:want]
+        answers += got
+        if not hung and rc == 0 and len(got) >= want:
+            break
+        idx = start + len(got)
+        if idx >= len(lines):
+            break
+        if hung:
+            # confirm on its own, under a CPU limit
+            q = subprocess.run([exe], input=(lines[idx] + "\n").encode(), stdout=subprocess.PIPE, stderr=subprocess.PIPE,
+                               env=e, preexec_fn=_limit_cpu)
+            out = q.stdout.decode("utf-8", "replace").splitlines()
+            if q.returncode in (-signal.SIGXCPU, -signal.SIGKILL):
+                answers.append("timeout cpu=%d" % CONFIRM_CPU_S)
+                SUSPECT[0] = True
+            elif q.returncode == 0 and out:
+                answers.append(out[0])
+            else:
+                deaths.append((idx, q.returncode, q.stderr.decode("utf-8", "replace")[-16000:]))
+                answers.append("died rc=%d" % q.returncode)
+        else:
+            try:
+                tail = open(errf, "rb").read().decode("utf-8", "replace")[-16000:]
+            except OSError:
+                tail = ""
+            deaths.append((idx, rc, tail))
+            answers.append("died rc=%d" % rc)
+        start = idx + 1
+        if len(deaths) >= max_restarts or sum(1 for a in answers if a.startswith("timeout")) >= (1 if SUSPECT[0] else MAX_TIMEOUTS):
+            answers += ["skipped"] * (len(lines) - start)
+            break
+    try:
+        os.remove(errf)
+    except OSError:
+        pass
+    return answers, deaths
+
+
 def site_of(stderr_tail):
-    """Where the sanitizer fired (function of vita nearest to the top of the stack)."""
-    for fn in ("columns_info::build", "dataframe::read_csv", "dataframe::read_xrff", "dataframe::to_example",
-               "parse_line", "has_header", "guess_delimiter"):
-        if fn in stderr_tail:
-            return fn
-    return "?"
+    """Where the sanitizer fired: the function of vita nearest to the top of the stack of the access itself (the
+    stacks of the allocation / deallocation that follow in the report are not looked at)."""
+    at = max(stderr_tail.rfind("ERROR: AddressSanitizer"), stderr_tail.rfind("runtime error:"))
+    if at >= 0:
+        stderr_tail = stderr_tail[at:]
+        for stop in ("allocated by", "freed by", "is located", "previously allocated", "\n\n"):
+            cut = stderr_tail.find(stop)
+            if cut > 0:
+                stderr_tail = stderr_tail[:cut]
+    first = [(stderr_tail.find(fn), fn) for fn in
+             ("columns_info::build", "dataframe::read_csv", "dataframe::read_xrff", "dataframe::to_example",
+              "dataframe::read_record", "dataframe::is_valid", "vita::label", "parse_line", "get_input", "has_header",
+              "guess_delimiter", "setup_terminals", "category_set")]
+    first = sorted(x for x in first if x[0] >= 0)
+    return first[0][1] if first else "?"
+
+
+READER_SOURCES = ["src/kernel/gp/src/dataframe.cc", "src/kernel/gp/src/dataframe.h", "src/utility/pocket_csv.h",
+                  "src/utility/utility.cc", "src/utility/utility.h", "src/kernel/gp/src/problem.cc",
+                  "src/kernel/gp/src/problem.h", "src/kernel/gp/src/category_set.cc", "src/kernel/gp/src/category_set.h"]
+
+
+def cached_sites(gen):
+    """translate_reader.emit, skipped when neither the sources it reads (the whole tree hash: headers are
+    included transitively) nor the translator nor the generated file changed since the last run"""
+    import hashlib
+    h = hashlib.sha256()
+    h.update(C.repo_tree_hash("c10-sites").encode())
+    for f in (os.path.join(C.ROOT, "tools", "translate_reader.py"), os.path.join(C.ROOT, "tools", "cxx2lean.py"),
+              os.path.join(C.ROOT, "tools", "tu", "reader_tu.cc")):
+        h.update(open(f, "rb").read())
+    if os.path.exists(gen):
+        h.update(open(gen, "rb").read())
+    key = h.hexdigest()
+    stamp = os.path.join(C.BUILD, "c10_sites.json")
+    if os.path.exists(stamp):
+        try:
+            st = json.load(open(stamp))
+            if st.get("key") == key:
+                return st["res"], False
+        except (ValueError, KeyError):
+            pass
+    res, changed = translate_reader.emit(gen)
+    slim = {"sites": [{"kind": s_["kind"]} for s_ in res["sites"]], "functions": res["functions"], "edges": res["edges"],
+            "recursive": res["recursive"]}
+    h2 = hashlib.sha256()
+    h2.update(C.repo_tree_hash("c10-sites").encode())
+    for f in (os.path.join(C.ROOT, "tools", "translate_reader.py"), os.path.join(C.ROOT, "tools", "cxx2lean.py"),
+              os.path.join(C.ROOT, "tools", "tu", "reader_tu.cc")):
+        h2.update(open(f, "rb").read())
+    h2.update(open(gen, "rb").read())
+    os.makedirs(C.BUILD, exist_ok=True)
+    json.dump({"key": h2.hexdigest(), "res": slim}, open(stamp, "w"))
+    return slim, changed
+
+
+def valid_requests(rng, n):
+    """hand-built dataframes for `dataframe::is_valid()` (harness/c10_scale.cc `valid`, driver `valid`): any number of
+    classes, outputs of every alternative, equal and unequal numbers of inputs, a column without a domain with states"""
+    out = []
+    for _ in range(n):
+        ncl = rng.choice([0, 0, 0, 1, 2, 2, 3, 5])
+        nvoid = 1 if rng.chance(0.1) else 0
+        m = rng.choice([0, 1, 2, 3, 3, 4, 6, 9])
+        k0 = rng.below(4)
+        ragged = rng.chance(0.35)
+        toks = []
+        for i in range(m):
+            if ncl and rng.chance(0.8):
+                o = "i%d" % rng.choice(list(range(ncl)) * 3 + [ncl, ncl + 1, -1, 7])
+            else:
+                o = rng.choice(["d", "d", "d", "v", "s", "i0", "i1"])
+            k = k0
+            if ragged and i > 0 and rng.chance(0.4):
+                k = rng.choice([0, 1, 2, 3, 5, k0 + 1])
+            toks += [o, str(k)]
+        out.append("valid %d %d %d %s" % (ncl, nvoid, m, " ".join(toks)))
+    return [ln.strip() for ln in out]
 
 
 def run(chk, replay=None):
     rng = C.SplitMix(chk.seed)
     quick = chk.tier == "quick"
     broken = []
+    t_phase = [time.time()]
+
+    def phase(name):
+        now = time.time()
+        chk.cov.setdefault("phase_seconds", {})[name] = round(now - t_phase[0], 1)
+        C.log("[C10] %-28s %6.1f s" % (name, now - t_phase[0]))
+        t_phase[0] = now
+    # ---- tie 1: the access sites and the call graph, from the clang AST of the working tree -----------------
+    gen = os.path.join(C.LEAN, "Vita", "C10", "GenSites.lean")
+    try:
+        res, changed = cached_sites(gen)
+        kinds = {}
+        for st in res["sites"]:
+            kinds[st["kind"]] = kinds.get(st["kind"], 0) + 1
+        chk.cov["sites"] = {"total": len(res["sites"]), "by_kind": kinds, "functions": len(res["functions"]),
+                            "call_edges": len(res["edges"]), "cycle_closing_calls": len(res["recursive"]),
+                            "regenerated_differs_from_committed": bool(changed)}
+        for k, v in kinds.items():
+            chk.count("site:" + k, v)
+    except translate_reader.Refuse as e:
+        broken.append("tools/translate_reader.py refuses the current sources (GenSites.lean left as it was): %s" % (e,))
+    phase("translate_reader")
     ok, msg = chk.prove("Vita.C10.Props", ["Vita.C10.Props", "c10_driver"])
+    phase("lake build + audit")
     if not ok:
         broken.append("theorems of Vita.C10.Props no longer check: " + msg)
     drv_ok = os.path.exists(C.driver_path("c10_driver"))
@@ -168,13 +780,24 @@ def run(chk, replay=None):
         broken.append("the model driver does not build")
     exe = C.build_harness("c09_read", "asan")
     S = L.Session(exe, "c10_driver")
+    scale_exe = C.build_harness("c10_scale", "asan")
+    phase("libvita + harnesses")
 
     cases = []      # (kind, cpp line, model line or None, what)
+    extra = []      # requests of harness/c10_scale.cc answered by the model as they are (`valid`) or not at all (`path`)
     rp = json.load(open(replay)).get("replay", {}) if replay else {}
-    if "line" in rp:          # a concrete failing input: run exactly this request again
+    if rp.get("kind") == "scale":          # a resource-scaling request
+        run_scale(chk, scale_exe, rng, quick, only=rp["line"])
+    elif rp.get("kind") in ("valid", "path"):
+        extra.append(rp["line"])
+    elif "line" in rp:          # a concrete failing input: run exactly this request again
         k = rp.get("kind", rp["line"].split()[0])
         cases.append((k, rp["line"], None if k == "xrff" else rp["line"], "replay"))
     else:
+        run_scale(chk, scale_exe, rng, quick)
+        phase("scaling stream")
+        extra += valid_requests(rng, 400 if quick else 4000)
+        extra += ["path missing " + e.hex() for e in (b".csv", b".xrff", b".XML", b".txt")] + ["path missing -", "path empty"]
         cdir = os.path.join(C.ROOT, "corpus", "C10")
         if os.path.isdir(cdir):
             for f in sorted(os.listdir(cdir)):
@@ -182,6 +805,12 @@ def run(chk, replay=None):
                     ln = ln.strip()
                     if ln and not ln.startswith("#"):
                         k = ln.split()[0]
+                        if k == "scale":              # regression inputs of the resource stream
+                            run_scale(chk, scale_exe, rng, quick, only=ln)
+                            continue
+                        if k in ("valid", "path"):
+                            extra.append(ln)
+                            continue
                         cases.append((k, ln, None if k == "xrff" else ln, "corpus:" + f))
         n = 5000 if quick else 40000
         for i in range(n):
@@ -190,7 +819,10 @@ def run(chk, replay=None):
                 T["rows"] = T["rows"][:rng.between(1, 12)]
             if i % 4 == 3:
                 xml, _ = L.render_xrff(rng, T)
-                xml, what = mutate_xml(rng, xml)
+                xml, what = mutate_xml2(rng, xml) if rng.chance(0.5) else mutate_xml(rng, xml)
+                if rng.chance(0.15):
+                    xml, w2 = mutate_xml2(rng, xml)
+                    what += "+" + w2
                 filt = "0" if rng.chance(0.8) else "%d_%d" % (rng.between(2, 5), rng.below(2))
                 cases.append(("xrff", "xrff %s %s" % (filt, L.hx(xml)), None, "xml:" + what))
                 continue
@@ -200,10 +832,13 @@ def run(chk, replay=None):
                 # the sniffer's window (20 lines) is a parameter of the model: keep the input inside it
                 T["rows"] = T["rows"][:14]
             data = L.render_csv(rng, T)
-            data, what = mutate_csv(rng, T, data)
+            data, what = mutate_csv2(rng, T, data) if rng.chance(0.45) else mutate_csv(rng, T, data)
             for _ in range(rng.below(2)):
-                data, w2 = mutate_csv(rng, T, data)
+                data, w2 = mutate_csv2(rng, T, data) if rng.chance(0.5) else mutate_csv(rng, T, data)
                 what += "+" + w2
+            if (delim == 0 or hdr == -1) and (data.count(b"\n") + data.count(b"\r")) > 17:
+                delim = delim or T["delim"][0]          # outside the window: explicit dialect
+                hdr = max(hdr, 0)
             o = rng.choice([-1, 0, 0, 1, T["ncols"] - 1, rng.below(T["ncols"]), rng.below(T["ncols"]),
                             -1 if T["out"] is None else T["out"], -1 if T["out"] is None else T["out"],
                             T["ncols"], T["ncols"] + 3, 100])
@@ -222,10 +857,45 @@ def run(chk, replay=None):
             if rng.chance(0.3):
                 cases.append(("xrff", "xrff 0 " + L.hx(data), None, "xml:random-bytes"))
 
-    cpp, deaths = S.cpp([c[1] for c in cases])
+    def check_extra():
+        # ---- `is_valid` on hand-built dataframes and `read` on missing files ---------------------------------------
+        if extra:
+            xa, xdeaths = run_lines_wd(scale_exe, extra)
+            vi = [i for i, ln in enumerate(extra) if ln.startswith("valid")]
+            xm = dict(zip(vi, C.run_driver("c10_driver", [extra[i] for i in vi]))) if drv_ok and vi else {}
+            for i, ln in enumerate(extra):
+                a = xa[i] if i < len(xa) else "skipped"
+                kind = ln.split()[0]
+                chk.seen(ln, nontrivial=True)
+                chk.count("%s:%s" % (kind, " ".join(a.split()[:3]) if kind == "valid" else a))
+                rep = {"kind": kind, "line": ln, "cpp": a[:300]}
+                if a == "skipped":
+                    continue
+                if a.startswith(("died", "timeout", "nonstd", "bad-op")):
+                    chk.violation("%s: %s -> %s" % ("is_valid() on a hand-built dataframe" if kind == "valid" else
+                                                     "dataframe::read on a missing file", ln[:120], a[:120]), rep,
+                                  tags={"kind": kind, "site": "fault"})
+                    continue
+                if kind == "valid":
+                    if "valid=1" in a and "eqin=0" in a:
+                        chk.violation("is_valid() accepts a dataframe whose examples have different numbers of inputs: " + ln,
+                                      rep, tags={"kind": "valid", "site": "is_valid-unequal-inputs"})
+                        continue
+                    if i in xm and xm[i] != a:
+                        rep["model"] = xm[i]
+                        # the model of is_valid is characterised by `is_valid_spec`: a disagreement is a wrong answer of the code
+                        chk.violation("is_valid() answers `%s` where its specification (is_valid_spec) says `%s`: %s"
+                                      % (a, xm[i], ln), rep, tags={"kind": "valid", "site": "is_valid-spec"})
+                elif not a.startswith("exc"):
+                    chk.violation("dataframe::read of a missing file does not raise a standard exception: " + a[:100], rep,
+                                  tags={"kind": "path", "site": "missing-file"})
+
+    phase("generation")
+    cpp, deaths = run_lines_wd(exe, [c[1] for c in cases])
+    phase("vita on the malformed stream")
     xi = [i for i, c in enumerate(cases) if c[0] == "xrff"]
     if xi:
-        docs, ddeaths = S.cpp(["xdoc " + cases[i][1].split()[2] for i in xi])
+        docs, ddeaths = run_lines_wd(exe, ["xdoc " + cases[i][1].split()[2] for i in xi])
         for i, dline in zip(xi, docs):
             c = cases[i]
             toks = dline.split()
@@ -240,6 +910,7 @@ def run(chk, replay=None):
         for i, a in zip(mi, S.model(["old " + cases[i][2] for i in mi])):
             old[i] = a
 
+    phase("model on the malformed stream")
     ndis = 0
     for i, (kind, ln, mln, what) in enumerate(cases):
         a = cpp[i] if i < len(cpp) else "skipped"
@@ -253,11 +924,19 @@ def run(chk, replay=None):
         if mln is not None and mln != ln:
             rep["model_line"] = mln
         # own oracle ---------------------------------------------------------
-        if a.startswith("died") or a == "skipped":
+        if a.startswith("timeout"):
+            chk.violation("reading this input does not terminate (%s; a normal reading takes milliseconds): %s"
+                          % (a, ln[:160]), rep, tags={"kind": kind, "site": "timeout"})
+            continue
+        if a == "skipped":          # the stream was cut short after several faults / timeouts (reported above)
+            chk.count("cpp-skipped")
+            continue
+        if a.startswith("died"):
             se = [d for d in deaths if d[0] == i]
             tail = se[0][2] if se else ""
             site = site_of(tail)
-            rep["sanitizer"] = tail[-2500:]
+            at = max(tail.rfind("ERROR: AddressSanitizer"), tail.rfind("runtime error:"), 0)
+            rep["sanitizer"] = tail[at:at + 2500] if at else tail[-2500:]
             chk.violation("reading this input executes undefined behaviour (sanitizer abort in %s): %s"
                           % (site, ln[:160]), rep, tags={"kind": kind, "site": site})
             continue
@@ -292,6 +971,16 @@ def run(chk, replay=None):
         if i % 131 == 0:
             chk.sample({"line": ln[:140], "cpp": a[:100], "mutation": what})
     chk.cov["model_vs_code_disagreements"] = ndis
+    check_extra()          # after the readings: a violation shown by a reading is reported first
+    phase("is_valid / missing files")
+    hist = sorted(((k[4:], v) for k, v in chk.cov["input_distribution"].items() if k.startswith("cpp:")), key=lambda kv: -kv[1])
+    chk.cov["outcome_histogram"] = dict(hist)
+    C.log("[C10] outcomes of the %d readings: %s" % (len(cases), ", ".join("%s %d" % kv for kv in hist)))
+    byk = {}
+    for k, v in chk.cov["input_distribution"].items():
+        if k.startswith("input:"):
+            byk[k[6:]] = v
+    C.log("[C10] inputs by mutation: " + ", ".join("%s %d" % kv for kv in sorted(byk.items(), key=lambda kv: -kv[1])))
 
     if broken and not [v for v in chk.violations if not v[2]]:
         for b in broken:
@@ -301,13 +990,22 @@ def run(chk, replay=None):
         chk.notes += broken
     return chk.finish(
         level="proof",
-        checker_cmd="lake build Vita.C10.Props c10_driver && lake env lean <#print axioms for every theorem>",
-        rule="mutated well-formed tables (14 CSV mutations, 10 XML mutations, up to 3 stacked), random byte strings, "
-             "random reading parameters (delimiter incl. sniffing and odd bytes, header -1/0/1, output index in and "
-             "out of range, trim, filter); each is run under ASan+UBSan+LSan with NDEBUG and compared with the "
-             "model's outcome class and, when ok, the whole dataframe; distinct_nontrivial = distinct request "
-             "lines whose input is mutated / random and not blank",
-        trusted=["Lean 4.33 kernel", "hand-written model Vita/C09/{Csv,Model}.lean (tied by the differential run)",
-                 "harness/c09_read.cc + checks/c10.py", "g++ 12 ASan/UBSan/LSan as the detector of out-of-bounds "
-                 "accesses, leaks and UB inside libstdc++/tinyxml2 (not modelled)",
+        checker_cmd="python3 tools/translate_reader.py > lean/Vita/C10/GenSites.lean && lake build Vita.C10.Props c10_driver && "
+                    "lake env lean <#print axioms for every theorem>",
+        rule="(1) tools/translate_reader.py regenerates the access sites and the call graph of the readers from the clang AST; "
+             "sites_safe / no_reachable_recursion are re-proved for them.  (2) differential of the outcome class (and of the "
+             "whole dataframe when both sides succeed) under ASan+UBSan+LSan with NDEBUG, under a watchdog: mutated well-formed "
+             "tables (14 + 16 CSV mutations incl. quote grammar, EOF inside quotes, EOL mixes, BOM, NUL, high bytes, long "
+             "fields, blank runs; 10 + 14 XML mutations incl. entities, CDATA, comments, nesting up to and beyond tinyxml2's "
+             "depth limit, attribute syntax; up to 3 stacked), random byte strings, random reading parameters.  (3) "
+             "resource-scaling inputs (harness/c10_scale.cc) read on a 256 kB stack under a CPU watchdog, at sizes n and 4n, "
+             "with an expected outcome each; the stack's high-water mark must not grow with n.  (4) is_valid() on hand-built "
+             "dataframes against its specification; dataframe::read on missing files.  distinct_nontrivial = distinct request "
+             "lines whose input is mutated / random / scaled and not blank",
+        trusted=["Lean 4.33 kernel", "hand-written model Vita/C09/{Csv,Model}.lean, Vita/C10/{Model,Loops}.lean (tied by the "
+                 "differential run)", "tools/translate_reader.py + cxx2lean.py (clang-14 JSON AST -> sites with dominating guards; "
+                 "its guard-invalidation rules and the library contracts it assumes are listed in design/C10.md)",
+                 "lean/Vita/C10/Reviewed.lean: ten sites argued on the model instead of by arithmetic",
+                 "harness/c09_read.cc, harness/c10_scale.cc + checks/c10.py", "g++ 12 ASan/UBSan/LSan as the detector of "
+                 "out-of-bounds accesses, leaks, stack exhaustion and UB inside libstdc++/tinyxml2 (not modelled)",
                  "strtod/std::stod/std::stoi (uninterpreted in the model)"])
